@@ -291,3 +291,41 @@ namespace Foyer
 /-- All records a lookup can find (every shard's index). -/
 def Cache.findable {σ : Type} (c : Cache σ) : List Rec := c.shards.flatMap (·.index)
 end Foyer
+
+namespace Foyer
+/-- The ordinary (non disk-only) records among a list of leave notifications. -/
+def leftRecs (l : List (Reason × Rec)) : List Rec := (l.map (·.2)).filter (fun r => !r.phantom)
+
+/-- The ordinary record an operation admitted to the in-memory cache, if any. -/
+def admittedOf (op : Op) (out : Out) : List Rec :=
+  match op, out.ret with
+  | .ins .., .handle r => if r.phantom then [] else [r]
+  | _, _ => []
+
+/-- Run, collecting per-step (op, out) pairs. -/
+def Cache.admittedAll : List Op → List Out → List Rec
+  | op :: ops, o :: os => admittedOf op o ++ Cache.admittedAll ops os
+  | _, _ => []
+
+def Cache.leftAll (outs : List Out) : List Rec := outs.flatMap fun o => leftRecs o.leaves
+end Foyer
+
+namespace Foyer
+/-- The per-key *register* specification (C02): the record of the last completed insert of `k`
+that no completed remove of `k`, clear, or disk-only insert of `k` has followed. -/
+def regStep (k : Nat) (cur : Option Rec) (op : Op) (out : Out) : Option Rec :=
+  match op with
+  | .ins key _ _ _ phantom =>
+    if key = k then
+      (if phantom then none else match out.ret with
+        | .handle r => some r
+        | _ => cur)
+    else cur
+  | .remove key => if key = k then none else cur
+  | .clear => none
+  | _ => cur
+
+def regRun (k : Nat) : List Op → List Out → Option Rec → Option Rec
+  | op :: ops, o :: os, cur => regRun k ops os (regStep k cur op o)
+  | _, _, cur => cur
+end Foyer
